@@ -1,5 +1,6 @@
 """C16 — autosync/autoclean: real ioutil.post_add vs Lean postAdd vs rule oracle."""
 import json
+import os
 
 import common
 import env as envmod
@@ -38,6 +39,105 @@ def oracle(nodes, edges, copies, node, file):
         else:
             newcopies.append((cid, h, w))
     return newreq, sorted(newcopies)
+
+
+def stage_triggers(ctx, e, n):
+    """both triggers on real code: a file newly becomes present on a node through the import task (`_import_file`) or through
+    the completion of a transfer (`copy_request_done`), for every pre-state of the arriving node's copy row; the rule
+    oracle is evaluated on the state with the arrival applied and compared with what the trigger left behind"""
+    import pathlib
+    import time
+    import world as worldmod
+    import verif_idext
+    import alpenhorn.daemon.update as upd
+    from alpenhorn.daemon import auto_import
+    from alpenhorn.io import ioutil
+    from alpenhorn.scheduler import FairMultiFIFOQueue
+    rng = ctx.rng
+    w = worldmod.World(e)
+    db = w.db
+    for it in range(n):
+        ng, nodes, edges, copies, node = gen_case(rng)
+        for m in (db.StorageTransferAction, db.ArchiveFileCopyRequest, db.ArchiveFileImportRequest, db.ArchiveFileCopy,
+                  db.ArchiveFile, db.ArchiveAcq, db.StorageNode, db.StorageGroup):
+            m.delete().execute()
+        import shutil
+        shutil.rmtree(os.path.join(e.tmp, "roots"), ignore_errors=True)
+        for g in range(1, ng + 1):
+            db.StorageGroup.insert(id=g, name=f"g{g}").execute()
+        nrow = {}
+        for (i, g) in nodes:
+            root = e.root(f"n{i}")
+            db.StorageNode.insert(id=i, name=f"n{i}", group=g, root=root, host="h1", active=True, storage_type="A").execute()
+            with open(os.path.join(root, "ALPENHORN_NODE"), "w") as fh:
+                fh.write(f"n{i}\n")
+            nrow[i] = db.StorageNode.get(id=i)
+        acq = db.ArchiveAcq.create(name="acq")
+        import hashlib
+        data = b"payload"
+        for fid in (1, 2):
+            db.ArchiveFile.insert(id=fid, acq=acq, name=f"f{fid}", size_b=len(data), md5sum=hashlib.md5(data).hexdigest()).execute()
+        erows = []
+        for (a, b, s_, c_) in edges:
+            ed = db.StorageTransferAction.create(node_from=a, group_to=b, autosync=s_, autoclean=c_)
+            erows.append((ed.id, a, b, s_, c_))
+        trigger = rng.choice(["import", "pull"])
+        pre = rng.choice([None, ("N", "N"), ("X", "N"), ("N", "N")]) if trigger == "import" else rng.choice([None, ("N", "N"), ("X", "Y"), ("X", "N")])
+        crows = []
+        for (f, nd, h, wv) in copies:
+            if f == 1 and nd == node:
+                continue                      # the arriving node's own row is set from `pre`
+            c = db.ArchiveFileCopy.create(file=f, node=nd, has_file=h, wants_file=wv)
+            crows.append((c.id, f, nd, h, wv))
+        own = None
+        if pre is not None:
+            own = db.ArchiveFileCopy.create(file=1, node=node, has_file=pre[0], wants_file=pre[1])
+        f1 = db.ArchiveFile.get(id=1)
+        os.makedirs(os.path.join(nrow[node].root, "acq"), exist_ok=True)
+        with open(os.path.join(nrow[node].root, "acq", "f1"), "wb") as fh:
+            fh.write(data)
+        before_req = set(r.id for r in db.ArchiveFileCopyRequest.select())
+        e.set_host("h1")
+        q = FairMultiFIFOQueue()
+        un = upd.UpdateableNode(q, db.StorageNode.get(id=node))
+        try:
+            if trigger == "import":
+                verif_idext.MODE[:] = ["first", 1]
+                req = db.ArchiveFileImportRequest.create(node=node, path="acq/f1", recurse=False, register=True)
+                auto_import.import_file(un, q, pathlib.PurePath("acq/f1"), True, req)
+                item = q.get(timeout=0.001)
+                while item is not None:
+                    item[0](); q.task_done(item[1]); item = q.get(timeout=0.001)
+            else:
+                srcn = rng.choice([i for (i, g) in nodes if i != node] or [node])
+                rq = db.ArchiveFileCopyRequest.create(file=1, node_from=srcn, group_to=nrow[node].group_id)
+                before_req.add(rq.id)
+                ioutil.copy_request_done(rq, un.io, True, True, time.time() - 1)
+        except Exception as ex:  # noqa
+            ctx.violation("trigger:raised", f"{trigger} trigger raised {type(ex).__name__}: {ex}", {"kind": "trigger", "trigger": trigger, "pre": pre})
+            continue
+        arrived = db.ArchiveFileCopy.get_or_none(file=1, node=node)
+        if arrived is None or arrived.has_file != "Y":
+            ctx.count(f"trigger:{trigger}:not-present")
+            continue
+        # rule oracle on the state with the arrival applied (and nothing else)
+        crows2 = crows + [(arrived.id, 1, node, "Y", "Y")]
+        o_req, o_cop = oracle(nodes, erows, crows2, node, 1)
+        newreq = sorted((r.file_id, r.node_from_id, r.group_to_id) for r in db.ArchiveFileCopyRequest.select() if r.id not in before_req)
+        after_copies = sorted((c.id, c.has_file, c.wants_file) for c in db.ArchiveFileCopy.select())
+        ctx.count(f"trigger:{trigger}:pre={'none' if pre is None else pre[0] + pre[1]}:rules={'fired' if o_req or o_cop != sorted((c[0], c[3], c[4]) for c in crows2) else 'none'}")
+        ctx.case(("trigger", trigger, pre, tuple(nodes), tuple(erows), tuple(crows)), nontrivial=bool(erows),
+                 sample={"trigger": trigger, "own_row_before": pre, "edges": erows, "new_requests": newreq} if newreq and pre and len(ctx.samples) < 6 else None)
+        if newreq != o_req:
+            ctx.violation(f"trigger-autosync:{trigger}:{'new-row' if pre is None else 'existing-row'}",
+                          f"file became present on node {node} through {trigger} (its copy row before: {pre}); requests created {newreq}; "
+                          f"the rules give {o_req}", {"kind": "trigger", "trigger": trigger, "pre": pre, "nodes": nodes, "edges": erows,
+                                                     "copies": crows, "node": node})
+        if after_copies != o_cop:
+            ctx.violation(f"trigger-autoclean:{trigger}:{'new-row' if pre is None else 'existing-row'}",
+                          f"file became present on node {node} through {trigger} (row before: {pre}); copies afterwards {after_copies}; "
+                          f"the rules give {o_cop}", {"kind": "trigger", "trigger": trigger, "pre": pre, "nodes": nodes, "edges": erows,
+                                                     "copies": crows, "node": node})
 
 
 def run(ctx):
@@ -83,6 +183,8 @@ def run(ctx):
             after_files = sorted((c.id, c.file_id, c.node_id) for c in ArchiveFileCopy.select())
             cases.append((nodes, erows, crows, node, newreq, after_copies, kept == before_req and
                           after_files == sorted((c[0], c[1], c[2]) for c in crows)))
+    with envmod.Env() as e2:
+        stage_triggers(ctx, e2, 250 if ctx.quick() else 6000)
     ops = []
     for (nodes, erows, crows, node, newreq, after_copies, frame_ok) in cases:
         ns = ",".join(f"{i}:{g}" for i, g in nodes)
